@@ -1051,9 +1051,20 @@ func (bc *Blockchain) resetStateInternal(height uint32, stage stateChangeStage) 
 			keysCnt             = new(int)
 		)
 		for i := height + 1; i <= currHeight; i++ {
-			_, err := upperCache.DeleteBlock(bc.GetHeaderHash(i))
+			hdr, err := bc.GetHeader(bc.GetHeaderHash(i))
+			if err != nil {
+				return fmt.Errorf("failed to retrieve header %d: %w", i, err)
+			}
+			_, err = upperCache.DeleteBlock(hdr.Hash())
 			if err != nil {
 				return fmt.Errorf("error while removing block %d: %w", i, err)
+			}
+			// DeleteBlock removes the header as well, but the header chain must stay
+			// readable until the headers reset stage, otherwise an interrupted reset
+			// can't be resumed (header hashes are restored from SYSCurrentHeader on start).
+			err = upperCache.StoreHeader(hdr)
+			if err != nil {
+				return fmt.Errorf("error while storing header %d: %w", i, err)
 			}
 			blocksCnt++
 			if blocksCnt == persistBatchSize {
@@ -1256,8 +1267,9 @@ func (bc *Blockchain) resetStateInternal(height uint32, stage stateChangeStage) 
 		p = time.Now()
 		fallthrough
 	case transfersReset:
-		// there's nothing to do after that, so just continue with common operations
-		// and remove state reset stage in the end.
+		// There's nothing to do after that, so just continue with common operations
+		// and remove state reset stage in the end. But if the reset is being resumed
+		// right at this stage, the state root module was not yet initialized.
 	default:
 		return fmt.Errorf("unknown state reset stage: %d", stage)
 	}
